@@ -406,14 +406,31 @@ class Program:
             raise AnalysisError(f"anchor module {name} not found")
         return mm
 
+    def _moved(self, fid):
+        """a module-level function that now lives in another module of the package and is imported back
+        under the same name: the anchor follows the import"""
+        if ":" not in fid:
+            return None
+        short, qual = fid.split(":", 1)
+        if "." in qual:
+            return None
+        try:
+            mod = self.module(short)
+        except AnalysisError:
+            return None
+        r = self.resolve(mod, qual)
+        if r is not None and r[0] == "func":
+            return r[1]
+        return None
+
     def func(self, fid):
-        f = self._func_by_id.get(fid)
+        f = self._func_by_id.get(fid) or self._moved(fid)
         if f is None:
             raise AnalysisError(f"anchor function {fid} not found")
         return f
 
     def maybe_func(self, fid):
-        return self._func_by_id.get(fid)
+        return self._func_by_id.get(fid) or self._moved(fid)
 
     def all_functions(self):
         return list(self._func_by_id.values())
